@@ -49,6 +49,8 @@ enum Kind {
 enum Shape {
 	DcLoop,
 	Finite6,
+	/// the same six frames played backwards (static sounds only; a streaming sound cannot be reversed)
+	Finite6Reversed,
 }
 #[derive(Debug, Clone, Copy, PartialEq)]
 enum OwnStart {
@@ -66,7 +68,7 @@ struct Cfg {
 	first: u8,
 }
 
-const NCFG: u64 = 3 * 2 * 3 * 2 * NL;
+const NCFG: u64 = 3 * 3 * 3 * 2 * NL;
 const MGR_CASES: u64 = 8 * 4;
 /// pair family: two life-cycle commands of different kinds issued between the same two callbacks.
 /// cases = kind(3) x shape(2) x chunk(2) x first prefix letter (none-prefix + 13)
@@ -121,8 +123,8 @@ fn decode(idx: u64) -> Cfg {
 	i /= 2;
 	let own = [OwnStart::Imm, OwnStart::Delayed2, OwnStart::Clock][(i % 3) as usize];
 	i /= 3;
-	let shape = [Shape::DcLoop, Shape::Finite6][(i % 2) as usize];
-	i /= 2;
+	let shape = [Shape::DcLoop, Shape::Finite6, Shape::Finite6Reversed][(i % 3) as usize];
+	i /= 3;
 	let kind = [Kind::Static, Kind::Streaming, Kind::StreamingStarved][(i % 3) as usize];
 	Cfg {
 		kind,
@@ -189,7 +191,7 @@ impl Check for C03 {
 		format!("{:?} {:?} {:?}", c.kind, c.shape, c.own)
 	}
 	fn rule(&self) -> String {
-		"all sequences of length <= depth over the 13-letter command alphabet (each letter followed by one callback), plus the pair family (prefix of <= 1 (quick) / <= 2 (thorough) letters, then every ordered pair of pause/resume/resume_at/stop commands of different kinds with NO callback in between, then 4 callbacks; judged against both the order of issue and the fixed kind order), x {static, streaming} x {looping DC, finite 6 frames} x own start {immediate, delayed 2 s, clock} x chunk {1,3}; each history runs the real Box<dyn Sound> in lock-step with the 7-state reference machine. Model states = distinct (playback state, fade phase, start-time phase, volume phase, clock) tuples; non-trivial = histories that leave the Playing state".into()
+		"all sequences of length <= depth over the 13-letter command alphabet (each letter followed by one callback), plus the pair family (prefix of <= 1 (quick) / <= 2 (thorough) letters, then every ordered pair of pause/resume/resume_at/stop commands of different kinds with NO callback in between, then 4 callbacks; judged against both the order of issue and the fixed kind order), x {static, streaming} x {looping DC, finite 6 frames, the same reversed (static)} x own start {immediate, delayed 2 s, clock} x chunk {1,3}; each history runs the real Box<dyn Sound> in lock-step with the 7-state reference machine. Model states = distinct (playback state, fade phase, start-time phase, volume phase, clock) tuples; non-trivial = histories that leave the Playing state".into()
 	}
 	fn assumptions(&self) -> Vec<String> {
 		vec![
@@ -354,8 +356,11 @@ fn run_history(cfg: &Cfg, letters: &[u8], canonical: bool, ctx: &mut Ctx) {
 	let dt = 1.0;
 	let frames: Vec<Frame> = match cfg.shape {
 		Shape::DcLoop => rig::dc_frames(4, 1.0),
-		Shape::Finite6 => rig::coded_frames(FIN_LEN, 1.0 / 8.0),
+		Shape::Finite6 | Shape::Finite6Reversed => rig::coded_frames(FIN_LEN, 1.0 / 8.0),
 	};
+	if cfg.shape == Shape::Finite6Reversed && cfg.kind != Kind::Static {
+		return;
+	}
 	let own_start = match cfg.own {
 		OwnStart::Imm => StartTime::Immediate,
 		OwnStart::Delayed2 => StartTime::Delayed(Duration::from_secs(2)),
@@ -370,7 +375,7 @@ fn run_history(cfg: &Cfg, letters: &[u8], canonical: bool, ctx: &mut Ctx) {
 	let mut dec_stats = None;
 	let (mut sound, mut handle): (Box<dyn Sound>, Box<dyn SoundHandle>) = match cfg.kind {
 		Kind::Static => {
-			let mut data = rig::static_data(sr, frames.clone()).start_time(own_start);
+			let mut data = rig::static_data(sr, frames.clone()).start_time(own_start).reverse(cfg.shape == Shape::Finite6Reversed);
 			if looping {
 				data = data.loop_region(Region::from(..));
 			}
@@ -526,18 +531,20 @@ fn run_history(cfg: &Cfg, letters: &[u8], canonical: bool, ctx: &mut Ctx) {
 			}
 			9 => {
 				handle.seek_to(1.0);
+				// frames that remain from the seek target on: forwards 1..=5, backwards 1 and 0
+				let rem_after_seek = if cfg.shape == Shape::Finite6Reversed { 2 } else { FIN_LEN - 1 };
 				steps_since_seek = 0;
 				if pm.state != PS::Stopped {
 					// from here on FIN_LEN-1 frames remain (static: at once; streaming: after the buffered ones)
 					if cfg.kind != Kind::Static {
 						seek_pending_streaming = true;
-						hyps.push((0, FIN_LEN - 1));
+						hyps.push((0, rem_after_seek));
 					} else if hyps.iter().all(|(h, r)| h + 3 >= *r) {
 						// (the transport runs 3 frames ahead of what is heard; whether a seek issued that close to
 						// the end still takes effect is C04's subject, both readings are admitted here)
-						hyps.push((0, FIN_LEN - 1));
+						hyps.push((0, rem_after_seek));
 					} else {
-						hyps = vec![(0, FIN_LEN - 1)];
+						hyps = vec![(0, rem_after_seek)];
 					}
 				}
 			}
@@ -590,7 +597,7 @@ fn run_history(cfg: &Cfg, letters: &[u8], canonical: bool, ctx: &mut Ctx) {
 		// ---- natural end window (finite shape)
 		let impl_state = handle.state();
 		let mut model_state_name = pm.state.name();
-		if cfg.shape == Shape::Finite6 && pm.state != PS::Stopped {
+		if cfg.shape != Shape::DcLoop && pm.state != PS::Stopped {
 			if audible {
 				for h in hyps.iter_mut() {
 					h.0 += n;
@@ -624,7 +631,7 @@ fn run_history(cfg: &Cfg, letters: &[u8], canonical: bool, ctx: &mut Ctx) {
 			ctx.fail(format!("Stopped is not final :: {:?}", cfg.kind), desc(k));
 			break;
 		}
-		let audible = audible && pm.state != PS::Stopped || (audible && model_state_name == "Stopped" && cfg.shape == Shape::Finite6);
+		let audible = audible && pm.state != PS::Stopped || (audible && model_state_name == "Stopped" && cfg.shape != Shape::DcLoop);
 		ctx.state(hash64(&(
 			pm.state.name(),
 			format!("{:?}{:?}", pm.fade.state, own),
@@ -641,7 +648,7 @@ fn run_history(cfg: &Cfg, letters: &[u8], canonical: bool, ctx: &mut Ctx) {
 				bad = Some(format!("frame {} not finite/written: {:?}", i, f));
 				break;
 			}
-			if !audible && !(model_state_name == "Stopped" && cfg.shape == Shape::Finite6) {
+			if !audible && !(model_state_name == "Stopped" && cfg.shape != Shape::DcLoop) {
 				if f.left != 0.0 || f.right != 0.0 {
 					bad = Some(format!("frame {} = {:?}, expected exact silence (model state {}, started={})", i, f, pm.state.name(), started));
 					break;
